@@ -242,6 +242,9 @@ M_COLUMN = KModule("column", "src/column.rs", "verif_column", "column.rs", _gen_
 M_COLUMN.harnesses.append(H("u7_sizes_table", "U7"))
 for n in ["u7_compress_rk", "u7_compress_nn", "u7_compress_nk"]:
     M_COLUMN.harnesses.append(H(n, "U7", kind="bounded", bound="slice of 3 fixed tables + blob table with arbitrary entry sizes (the real vector has 255 + 1)"))
+for n in ["u8d_set_plain", "u8d_set_rc", "u8d_set_preimage", "u8d_reference_rc", "u8d_reference_plain", "u8d_dereference_rc", "u8d_dereference_plain"]:
+    M_COLUMN.harnesses.append(H(n, "U8d", kind="bounded", shape="write_existing_value_plan: " + n[4:],
+                                bound="3 fixed tiers with arbitrary increasing sizes (largest >= 4096) + blob table, instead of the real 255 + 1"))
 M_COLUMN.harnesses.append(H("u11_child_count_representable", "U11"))
 for (n, d) in U11_WELL:
     M_COLUMN.harnesses.append(H("u11_well_c%d_d%d" % (n, d), "U11", kind="bounded", tiers=("thorough",) if n == 255 else ("quick", "thorough"),
@@ -302,7 +305,7 @@ PROPS["C20"] = {
     "does_not_cover": ["the `for _ in 0..rc` re-commit loop", "column selection, file copying, overwrite mode", "reference counts of the destination"],
 }
 PROPS["C06"] = {
-    "kani_units": ["U5", "U6", "U7"],
+    "kani_units": ["U5", "U6", "U7", "U8d"],
     "verus_units": [],
     "level": "other",
     "technique": "Kani/CBMC contracts on the real entry-header codec and tier selection (complete) and on the chain writer/reader against the on-disk format specification (bounded shapes)",
@@ -360,7 +363,7 @@ PROPS["C08"] = {
     "does_not_cover": ["side effects of commit_changes before commit_raw (claimed node slots, to_dereference)", "bg_err state", "clean_overlay (Entry API)"],
 }
 PROPS["C07"] = {
-    "kani_units": [],
+    "kani_units": ["U8d"],
     "verus_units": ["ref_counter", "overlay_publish"],
     "level": "other",
     "technique": "Verus proof of the counter transition fragment of the real change_ref (all u32 counters) and of the overlay mirroring rules",
@@ -382,6 +385,9 @@ UNIT_META = {
     "U8": {"functions": ["table::ValueTable::change_ref (counter-transition fragment)"], "assumes": ["fragment wrapped by a hand-written function (rule R8)"]},
     "U9": {"functions": ["table::ValueTable::validate_plan", "index::IndexTable::{validate_plan,skip_plan}"],
            "assumes": ["LogReader::read replaced by its contract (arbitrary bytes or failure)", "crc32fast::Hasher::new stubbed by its portable constructor"]},
+    "U8d": {"functions": ["column::Column::write_existing_value_plan"],
+            "assumes": ["ValueTable::{write_replace_plan,write_remove_plan,write_insert_plan,write_inc_ref,write_dec_ref} replaced by their contracts (recorders asserting the callee precondition); the contracts are checked on the real functions under U6/U8/U14",
+                        "Column::compress with NoCompression"]},
     "U11": {"functions": ["column::{unpack_node_data,unpack_node_children,packed_node_size,packed_child_count}"], "assumes": []},
     "U14": {"functions": ["table::ValueTable::{clear_slot,next_free,read_next_free,complete_plan,write_remove_plan,clear_chain}"], "assumes": ["LogWriter ghost view"]},
     "index_search": {"functions": ["index::Entry::*", "index::Address::*", "index::IndexTable::{chunk_index,find_entry_base}"], "assumes": ["read_entry contract (external_body; proved by Kani U1.read_entry_is_le_word)"]},
